@@ -60,6 +60,7 @@ package transaction
 //@   loop 2 invariant sum + (len(partition.periods) - $i) * amount + ($i > 0 ? 0.0 : rem) == p.Quantity
 //@   loop 2 invariant $i > 0 ==> leg(result[len(result) - 1], account, p, $i == 1 ? amount + rem : amount)
 //@   loop 2 invariant forall x int :: {sz[x]} x != $i1 ==> sz[x] == entry(sz[x])
+//@   loop 2 invariant @partdate: $i > 0 ==> result[len(result) - 1].Date == partition.periods[$i - 1].End
 //
 // Create: the model transactions of one syntax transaction; all postings come from the pair builder.
 //@ def okPostings(tr *Transaction) bool := tr != nil && paired(tr.Postings)
